@@ -27,7 +27,7 @@ import (
 const unknownID = 16777215 // an object / type the numbering does not know
 
 type shape struct {
-	T string `json:"t"`           // "named" | "ptr" | "other"
+	T string  `json:"t"`           // "named" | "ptr" | "other"
 	N *[2]int `json:"n,omitempty"` // named: (id, origin id); ptr: element when it is a Named
 }
 
@@ -209,7 +209,8 @@ type lightInfo struct {
 }
 
 func lightLoad(dir string, patterns []string) (*lightInfo, error) {
-	cfg := &packages.Config{Dir: dir, Mode: packages.NeedName | packages.NeedFiles | packages.NeedImports | packages.NeedDeps | packages.NeedModule}
+	cfg := &packages.Config{Dir: dir, Mode: packages.NeedName | packages.NeedFiles | packages.NeedCompiledGoFiles | packages.NeedImports | packages.NeedDeps | packages.NeedModule}
+	// (NeedCompiledGoFiles as in types.Load: the import map of a cgo package then includes runtime/cgo)
 	pkgs, err := packages.Load(cfg, patterns...)
 	if err != nil {
 		return nil, err
@@ -576,7 +577,7 @@ func observe(u *types.Universe, li *lightInfo, sweep bool, dir string) (*inputDa
 			}
 			continue
 		}
-		maxP, maxL := 8, 60
+		maxP, maxL := 24, 60
 		if sweep {
 			maxP, maxL = 0, 0
 		}
